@@ -21,7 +21,7 @@ from .. import batsys, world
 from ..core import Verdict
 
 IDS = ("C17",)
-BUDGET = {"quick": 1500, "thorough": 8000}
+BUDGET = {"quick": 1200, "thorough": 8000}
 SIZE_BOUNDS = {
     "quick": "1-4 groups of 1-3 batteries x 1-3 inverters (complete bipartite: shared inverters and shared batteries), "
              "bounds on an integer/half grid <= 5000 W, <= 20 probe powers x 2 adjust_power settings per data set",
@@ -42,7 +42,9 @@ RULE = {
         "not working (their data stay complete), advertised bounds are computed for the working set and the probe round is "
         "repeated with requests that still name every battery. Last, a send-on-update aggregator (what the pool streams) is "
         "attached, the upper bounds of group 0 drift down by 5e-7 (relative) per message for 25 messages, and a power "
-        "1e-9 inside the inclusion bound streamed last must not be rejected. Non-trivial = >=2 groups with different exclusion bounds or a shared inverter/battery; "
+        "1e-9 inside the inclusion bound streamed last must not be rejected; and a battery of a multi-battery set is declared not "
+        "working, everything keeps streaming, then that battery alone reports halved bounds: again what is streamed last must "
+        "not admit more than the distributor. Non-trivial = >=2 groups with different exclusion bounds or a shared inverter/battery; "
         "distinct by SHA-1 of the canonical JSON case."
     )
 }
@@ -54,7 +56,7 @@ ASSUMPTIONS = [
 ]
 MIN_LABELS = {"C17": {"shared": 0.3, "multi_group_diff_excl": 0.2, "probe_on_incl_bound": 0.5, "data_update_phase": 0.5,
                       "update_with_older_timestamp_than_sibling": 0.1, "status_phase_some_not_working": 0.5,
-                      "streamed_bounds_after_slow_drift": 0.3,
+                      "streamed_bounds_after_slow_drift": 0.3, "non_working_member_of_a_working_set_changes_its_bounds": 0.2,
                       "battery_set_partially_working": 0.1}}
 
 
@@ -116,6 +118,9 @@ def run_case(case: Any, pid: str) -> Verdict:
             if v.violations:
                 return
             await drift_phase(mw, case_now)
+            if v.violations:
+                return
+            await stale_member_phase(mw, case_now)
 
     async def update_phase(mw: Any) -> dict[str, Any]:
         """Second phase: updated bounds for one battery, older / equal / newer timestamp.  Returns the data now in force."""
@@ -215,6 +220,62 @@ def run_case(case: Any, pid: str) -> Verdict:
         if isinstance(res, OutOfBounds):
             v.fail(f"[after a slow drift of group 0's upper bounds] {probe} W is inside the inclusion bounds the pool streams "
                    f"last ({latest.inclusion_bounds}) but was answered OutOfBounds {res.bounds}")
+
+    async def stale_member_phase(mw: Any, case_now: dict[str, Any]) -> None:
+        """Fifth phase: a battery that is *not* working, in a set with a working one, keeps streaming and then reports
+        halved bounds; what the pool streams afterwards must still admit only what the distributor admits."""
+        from frequenz.sdk.timeseries.battery_pool._methods import SendOnUpdate  # pylint: disable=import-outside-toplevel
+
+        gi = next((k for k, (bids, _) in enumerate(mw.ids) if len(bids) >= 2), None)
+        if gi is None:
+            return
+        groups_s = [dict(g, bats=[dict(b) for b in g["bats"]], invs=[dict(i) for i in g["invs"]]) for g in case_now["groups"]]
+        for key in ("iu", "il", "eu", "el"):
+            groups_s[gi]["bats"][0][key] = groups_s[gi]["bats"][0][key] * 0.5 + 0.0
+        gb = batsys.group_bounds(groups_s[gi])
+        if gb["min_power_up"] > gb["incl_up"] or gb["min_power_lo"] > gb["incl_lo"]:
+            return
+        all_bats = {b for bids, _ in mw.ids for b in bids}
+        victim = mw.ids[gi][0][0]
+        tracker = mw.manager._component_pool_status_tracker  # pylint: disable=protected-access
+        agg = SendOnUpdate(working_batteries=set(all_bats), metric_calculator=PowerBoundsCalculator(all_bats),
+                           min_update_interval=timedelta(seconds=0.05))
+        rx = agg.new_receiver(limit=10000)
+        await world.settle(2)
+        for _ in range(6):   # component data older than 2 s count as missing: keep everything fresh
+            await mw.feed_groups(case_now["groups"])
+            await asyncio.sleep(0.5)
+        tracker.not_working = {victim}
+        agg.update_working_batteries(set(all_bats) - {victim})
+        await asyncio.sleep(0.2)
+        # everything keeps streaming (the aggregator forgot the victim and its inverters when the status changed) ...
+        await mw.feed_groups(case_now["groups"])
+        await asyncio.sleep(0.3)
+        # ... and then only the victim reports new bounds
+        await mw.api.send(victim, batsys.make_battery(victim, groups_s[gi]["bats"][0], world.now()))
+        await asyncio.sleep(0.3)
+        latest = None
+        while True:
+            try:
+                latest = await asyncio.wait_for(rx.receive(), timeout=1e-6)
+            except asyncio.TimeoutError:
+                break
+        await agg.stop()
+        if latest is None or latest.inclusion_bounds is None:
+            tracker.not_working = set()
+            v.labels.add("stale_member_phase_without_streamed_bounds")
+            return
+        v.labels.add("non_working_member_of_a_working_set_changes_its_bounds")
+        for bound, side in ((latest.inclusion_bounds.upper.as_watts(), "upper"), (latest.inclusion_bounds.lower.as_watts(), "lower")):
+            probe = bound * (1.0 - 1e-9)
+            excl = latest.exclusion_bounds
+            if probe == 0 or (excl is not None and excl.lower.as_watts() < probe < excl.upper.as_watts()):
+                continue
+            res = await mw.request(probe, adjust_power=False)
+            if isinstance(res, OutOfBounds):
+                v.fail(f"[battery {victim} not working, its set still working, its bounds halved] {probe} W is inside the {side} "
+                       f"inclusion bound the pool streams last ({latest.inclusion_bounds}) but was answered OutOfBounds {res.bounds}")
+        tracker.not_working = set()
 
     async def probe_round(mw: Any, case_now: dict[str, Any], phase: str, working: set[int] | None = None) -> None:
         groups_now = case_now["groups"]
